@@ -31,3 +31,14 @@ Inductive texpr : Type :=
 
 (* namedtuple class name and its positional arguments *)
 Definition trule := (string * list texpr)%type.
+
+(* ------------------------------------------------------------------ values the list code returns *)
+Inductive fval : Type :=
+| FInt (z : Z)
+| FBytes (b : list Z)      (* a Python list of byte values (loc_expr) *)
+| FStr (s : string)
+| FBool (b : bool)
+| FInts (l : list Z).      (* a Python list of ints (header['offsets']) *)
+
+Definition container := list (string * fval).       (* construct Container, insertion order *)
+Definition tup := (string * list fval)%type.        (* namedtuple: class name, positional values *)
